@@ -618,6 +618,17 @@ class JSTypedArray(JSObject):
     def length(self) -> int:
         return len(self._data)
 
+    def ensure_buffer(self) -> "JSArrayBuffer":
+        """The ArrayBuffer behind the elements. An array made from a length or
+        a list gets its buffer when it is first asked for (by `.buffer`, or by
+        subarray, whose result is a view of the same memory)."""
+        if self._buffer is None:
+            self._buffer = JSArrayBuffer(len(self._data) * self._element_size)
+            self._byte_offset = 0
+            for index, value in enumerate(self._data):
+                self._write_to_buffer(index, value)
+        return self._buffer
+
     def get_index(self, index: int):
         if 0 <= index < len(self._data):
             if self._buffer is not None:
